@@ -41,7 +41,20 @@ fn main() {
         #[cfg(feature = "cli")]
         "C44" => p_text::run(pid, func, replay, seed),
         #[cfg(feature = "repo")]
-        "C18" | "C10" | "C19" | "C20" | "C11" => p_repo::run(pid, func, replay, seed),
+        "C20" => {
+            // "resolvable": a change-id prefix must resolve to exactly the commits of the change with the right visibility;
+            // that check lives with C18's change-id lookups (input kind C18chg), so C20 runs it as well
+            let is_c18_input = replay.as_ref().map(|i| i["kind"] == "C18chg" || i["kind"] == "C18").unwrap_or(false);
+            if is_c18_input { p_repo::run("C18", func, replay, seed) } else {
+                let r = p_repo::run(pid, func, replay.clone(), seed);
+                if r["found"] == true || replay.is_some() { r } else {
+                    let r2 = p_repo::run("C18", "change ids", None, seed);
+                    if r2["found"] == true { r2 } else { r }
+                }
+            }
+        }
+        #[cfg(feature = "repo")]
+        "C18" | "C10" | "C19" | "C11" => p_repo::run(pid, func, replay, seed),
         "C21" => p_tables::run(pid, func, replay, seed),
         _ => util::none(&format!("no executable contract for {pid} in this build (features: git={}, cli={}, repo={})", cfg!(feature = "git"), cfg!(feature = "cli"), cfg!(feature = "repo"))),
     };
